@@ -200,5 +200,18 @@ def nesting_job(pid):
 
 for _p in ("C09", "C13"):
     JOBS[_p] = JOBS[_p] + [nesting_job(_p)]
+
+
+def parse_job():
+    """exhaustive short byte strings: the parser model against ciborium (both directions, error class included), every type's byte-level
+    decoder, and the Value-level fixed point"""
+    return {"module": "MC_Parse", "spec": "Spec",
+            "invariants": ["InvShape", "InvLocal", "InvPrefixEof", "InvStableFail", "InvEncParse", "InvEncShorter", "InvRead", "Emit"],
+            "quick": {"constants": {"MaxLen": 2, "MaxLen2": 3}, "timeout": 300, "workers": 8},
+            "thorough": {"constants": {"MaxLen": 3, "MaxLen2": 4}, "timeout": 1800, "workers": 8}}
+
+
+for _p in ("C01", "C07", "C13"):
+    JOBS[_p] = JOBS[_p] + [parse_job()]
 for _p, _f in TRACE_FAMS.items():
     JOBS[_p] = JOBS[_p] + [trace_job(_f)]
